@@ -1902,7 +1902,7 @@ pub fn run(args: &Args) -> i32 {
         return probe_list(args, spec);
     }
     let selftest = args.extra.contains_key("selftest");
-    let report = Report::new(args, "exploration", RULE, (30, 900)).with_min_nontrivial(100);
+    let report = Report::new(args, "exploration", RULE, (25, 900)).with_min_nontrivial(60);
     report.assume("struct-level nulls are generated only for format >= 2.1 (2.0 documents that it cannot store them)");
     report.assume("format 0.1: an empty string / binary value and a null are the same stored value (zero length, BinaryDecoder::count_nulls); the comparison identifies them");
     report.assume("format 0.1 (legacy) cases contain no null values and no dictionaries: the format has no null support (versioning.md) and keeps one dictionary per column and file");
